@@ -329,6 +329,7 @@ func (e *repoExec) execWith(h sim.History, next func(dump []def.Task, issued []s
 	}()
 	var issued []string
 	var snap []inmemory.KeyValue
+	skipUTC := false // after loading a hand-made non-UTC snapshot the UTC clause of C12 is not demanded
 	e.lastDump = nil
 	ops := h.Ops
 	for i := 0; ; i++ {
@@ -386,6 +387,21 @@ func (e *repoExec) execWith(h sim.History, next func(dump []def.Task, issued []s
 					continue
 				}
 			}
+			if len(tok) > 1 && tok[1] == "zone" {
+				// a hand-made snapshot: the same instants, written in other zones (Load stores them as given)
+				cp := make([]inmemory.KeyValue, len(kv))
+				z := time.FixedZone("x", 9*3600)
+				for i, p := range kv {
+					t := p.Value.Clone()
+					if i%2 == 1 {
+						t.ScheduledAt = t.ScheduledAt.In(z)
+						t.CreatedAt = t.CreatedAt.In(z)
+					}
+					cp[i] = inmemory.KeyValue{Key: p.Key, Value: t}
+				}
+				kv = cp
+				skipUTC = true
+			}
 			fresh, _ := newRepoUnderTest("mem", e.scratch)
 			if e.scribble && len(tok) > 1 && tok[1] != "json" {
 				// hand Load a copy that is scribbled over afterwards
@@ -406,7 +422,7 @@ func (e *repoExec) execWith(h sim.History, next func(dump []def.Task, issued []s
 				// the original repository is rebuilt from the same snapshot point only if no op happened
 				// after `sav`; otherwise lock-step comparison is meaningless, so the twin is the loaded
 				// state's source only when it still equals the snapshot.
-				if sameKV(u.mem.Save(), snap) {
+				if sameKV(u.mem.Save(), snap) && !skipUTC { // a re-zoned snapshot is compared with the model only
 					twin = u
 				} else {
 					u.closeFn()
@@ -471,7 +487,7 @@ func (e *repoExec) execWith(h sim.History, next func(dump []def.Task, issued []s
 				}
 			}
 			for _, t := range returned {
-				if f := proto.NonUTC(t); len(f) > 0 {
+				if f := proto.NonUTC(t); len(f) > 0 && !skipUTC {
 					out = append(out, "mismatch C12 non-UTC "+proto.Str(t.Id)+" "+strings.Join(f, ","))
 				}
 			}
@@ -922,7 +938,7 @@ func cmdRepo(args []string) {
 					count--
 					l = fmt.Sprintf("lodbad %d %d", r.Intn(8), r.Intn(5))
 				case count == snapAt+1:
-					l = "lod " + rng.Pick(r, []string{"raw", "json"})
+					l = "lod " + rng.Pick(r, []string{"raw", "json", "zone"})
 				default:
 					l = g.next(dump, issued, implFamily(*impl))
 				}
